@@ -6,7 +6,7 @@
    themselves (mutual exclusion, wake-up, the meaning of ETIMEDOUT) enters as explicit
    hypotheses of the theorems below - the "posix_..." premises. *)
 From UV Require Import Lib.Base Model.Thread Proofs.ThreadProofs Proofs.ThreadProofsBarrier
-  Proofs.ThreadProofsSem.
+  Proofs.ThreadProofsSem Proofs.ThreadProofsPass.
 
 Local Open Scope Z_scope.
 
@@ -306,3 +306,82 @@ Example C20_stack_timedwait_examples :
   timedwait_deadline 1000 (hrtime_of 5 7) = (5, 1007) /\
   timedwait_deadline max64 (hrtime_of 5 7) = (5, 6).
 Proof. vm_compute. auto. Qed.
+
+(* ------------------------------------------------------------------ *)
+(* (f) the blocking wrappers are the pthread call of the table [passthrough]; given that
+   call's POSIX contract (premises) they have the property's contract.  The table itself is
+   tied to the code by the pass-through correspondence of checks/c20.py. *)
+
+(* uv_rwlock_rdlock IS pthread_rwlock_rdlock, hence admits concurrent readers: any number
+   of readers is let in while no writer is inside, k successive readers are all inside,
+   a reader blocks exactly while a writer is inside; the writer is excluded by everyone. *)
+Theorem C20_rwlock_rdlock_shared :
+  forall (pthread_rw : pfn -> nat * bool -> option (nat * bool)),
+  (forall n w, pthread_rw PRwRdlock (n, w) = if w then None else Some (S n, false)) ->
+  (forall n w, pthread_rw PRwWrlock (n, w) =
+                 if w || negb (Nat.eqb n 0) then None else Some (O, true)) ->
+  (forall n w, pthread_rw PRwUnlock (n, w) = Some (if w then (O, false) else (pred n, false))) ->
+  (forall n, uv_rw pthread_rw UvRwlockRdlock (n, false) = Some (S n, false)) /\
+  (forall k, rd_many pthread_rw k (O, false) = Some (k, false)) /\
+  (forall n w, uv_rw pthread_rw UvRwlockRdlock (n, w) = None <-> w = true) /\
+  (forall n w, uv_rw pthread_rw UvRwlockWrlock (n, w) = None <-> (w = true \/ n <> O)) /\
+  (uv_rw pthread_rw UvRwlockWrlock (O, false) = Some (O, true)) /\
+  (forall n, uv_rw pthread_rw UvRwlockRdunlock (S n, false) = Some (n, false)) /\
+  (uv_rw pthread_rw UvRwlockWrunlock (O, true) = Some (O, false)).
+Proof. exact rwlock_rdlock_shared. Qed.
+Print Assumptions C20_rwlock_rdlock_shared.
+
+Theorem C20_mutex_lock_exclusive :
+  forall (pthread_mx : pfn -> bool -> option bool),
+  (forall h, pthread_mx PMutexLock h = if h then None else Some true) ->
+  (forall h, pthread_mx PMutexUnlock h = Some false) ->
+  (forall h, uv_mx pthread_mx UvMutexLock h = None <-> h = true) /\
+  uv_mx pthread_mx UvMutexLock false = Some true /\
+  (forall h, uv_mx pthread_mx UvMutexUnlock h = Some false).
+Proof. exact mutex_lock_exclusive. Qed.
+Print Assumptions C20_mutex_lock_exclusive.
+
+(* a semaphore of initial value k admits exactly k waiters *)
+Theorem C20_sem_admits_exactly :
+  forall (pthread_sem : pfn -> Z -> option Z),
+  (forall v, pthread_sem PSemPost v = Some (v + 1)) ->
+  (forall v, pthread_sem PSemWait v = if v =? 0 then None else Some (v - 1)) ->
+  forall k,
+  wait_many pthread_sem k (Z.of_nat k) = Some 0 /\
+  wait_many pthread_sem (S k) (Z.of_nat k) = None /\
+  (forall v, uv_sm pthread_sem UvSemPost v = Some (v + 1)).
+Proof. exact sem_admits_exactly. Qed.
+Print Assumptions C20_sem_admits_exactly.
+
+(* uv_once runs its function exactly once however many calls arrive *)
+Theorem C20_once :
+  forall (pthread_once_sem : pfn -> bool -> bool * bool),
+  (forall d, pthread_once_sem POnce d = (negb d, true)) ->
+  forall n, once_runs pthread_once_sem (S n) false = 1.
+Proof. exact once_exactly_once. Qed.
+Print Assumptions C20_once.
+
+(* uv_key_t values are private to each thread *)
+Theorem C20_key_private :
+  forall (pthread_set : pfn -> nat -> Z -> (nat -> Z) -> (nat -> Z))
+         (pthread_get : pfn -> nat -> (nat -> Z) -> Z),
+  (forall t v m t', pthread_set PSetspecific t v m t' = if Nat.eqb t t' then v else m t') ->
+  (forall t m, pthread_get PGetspecific t m = m t) ->
+  forall t t' v m,
+  uv_key_get_sem pthread_get t (uv_key_set_sem pthread_set t v m) = v /\
+  (t <> t' -> uv_key_get_sem pthread_get t' (uv_key_set_sem pthread_set t v m) =
+              uv_key_get_sem pthread_get t' m).
+Proof. intros ps pg H1 H2 t t' v m. exact (key_private ps pg H1 H2 t t' v m). Qed.
+Print Assumptions C20_key_private.
+
+Theorem C20_passthrough_table :
+  length all_uvfn = 32%nat /\
+  passthrough UvRwlockRdlock <> passthrough UvRwlockWrlock /\
+  passthrough UvRwlockRdlock <> passthrough UvRwlockTryrdlock /\
+  passthrough UvRwlockWrlock <> passthrough UvRwlockTrywrlock /\
+  passthrough UvMutexLock <> passthrough UvMutexTrylock /\
+  passthrough UvSemWait <> passthrough UvSemTrywait /\
+  passthrough UvCondSignal <> passthrough UvCondBroadcast /\
+  passthrough UvCondWait <> passthrough UvCondTimedwait.
+Proof. exact passthrough_table_facts. Qed.
+Print Assumptions C20_passthrough_table.
